@@ -171,6 +171,26 @@ theorem winning_chain_alone (p : Params) (n : Node) (es es₃ : List Event) (hf 
     (h3.trans h1.symm) p⟩
 
 
+/-- (d) … concretely: `chain` = the registered blocks on the path from the genesis `0` to the winner
+`w`, in path order (`Linked`: each block's parent is the one before it), all of them among the
+delivered ones. Delivering **just that chain** to a fresh node ends on the same head and the same
+reported unspent set as any parents-first delivery of the whole block set. -/
+theorem winning_chain_alone_path (p : Params) (n : Node) (es : List Event) (chain : List Blk)
+    (hf : Fresh n) (hr : Registered n es) (hp : ParentsFirst [] es)
+    (hl : Linked n 0 chain) (hsub : ∀ b ∈ chain, b.id ∈ blockIds es)
+    (w : Nat) (hv : VOP p n w) (hw : w = 0 ∨ w ∈ chain.map (·.id))
+    (hu : ∀ id, VOP p n id → (id = 0 ∨ id ∈ blockIds es) → id ≠ w → n.workOf id < n.workOf w) :
+    (run p n (chain.map Event.block)).head = w ∧ (run p n es).head = w ∧
+    (run p n (chain.map Event.block)).reportedUtxo p = (run p n es).reportedUtxo p :=
+  winning_chain_alone p n es (chain.map Event.block) hf hr hl.registered hp
+    (hl.parentsFirst (Or.inl rfl))
+    (by
+      intro id hid
+      rw [blockIds_map_block] at hid
+      obtain ⟨b, hb, hbid⟩ := List.mem_map.mp hid
+      exact hbid ▸ hsub b hb)
+    w hv (by rw [blockIds_map_block]; exact hw) hu
+
 /-! ## through the orphan pool: children before parents
 
 `HeadersOnly` (only the genesis stored, empty pool, invariants hold — the state after any number of
@@ -291,6 +311,30 @@ example : (run P N ex_es₁).head = 3 ∧ (run P N ex_es₁).stored = [0, 2, 1, 
 -- `HeadMax` / `StoredClosed` / `head_work_monotone` have only `Registered` as hypothesis
 example : HeadMax (run P N ex_es₁) := head_is_max P N ex_es₁ ex_reg₁ (ex_fresh.inv P).1
 
+-- `winning_chain_alone_path`: the chain 1, 3 alone gives the same head and unspent set
+example : (run P N ([B1, B3].map Event.block)).head = 3 ∧ (run P N ex_es₁).head = 3 ∧
+    (run P N ([B1, B3].map Event.block)).reportedUtxo P = (run P N ex_es₁).reportedUtxo P :=
+  winning_chain_alone_path P N ex_es₁ [B1, B3] ex_fresh ex_reg₁ ex_pf₁
+    ⟨rfl, rfl, rfl, rfl, trivial⟩ (by decide) 3 ex_vop3 (by decide)
+    (by
+      intro id hv hd hne
+      simp only [ex_es₁, blockIds, B1, B2, B3, B9, List.mem_cons, List.not_mem_nil, or_false] at hd
+      rcases hd with rfl | rfl | rfl | rfl | rfl | rfl
+      · decide
+      · decide
+      · decide
+      · exfalso
+        have h9 : N.blk (B9.id) = some B9 := rfl
+        obtain ⟨par, s', hpar, _, _, hc⟩ := VOP.inv (b := B9) hv h9 (by decide)
+        have : par = 1 := by
+          have : B9.parent = some 1 := rfl
+          rw [this] at hpar; exact (Option.some.inj hpar).symm
+        subst this
+        have : checkBlock P N B9 1 = .error "AlreadySpent" := rfl
+        rw [this] at hc; cases hc
+      · exact absurd rfl hne
+      · decide)
+
 -- `stored_after_any_order`: hypotheses hold, block 3 delivered before its parent ends up stored
 example : 3 ∈ (run P ex_N₂ ex_es₂).stored :=
   (stored_after_any_order P ex_N₂ ex_es₂ ex_headersOnly ex_reg₂ (by decide) 3).mpr ex_reach3
@@ -298,6 +342,31 @@ example : 3 ∈ (run P ex_N₂ ex_es₂).stored :=
 -- the orphan pool was really used: after the first delivery 3 sits in the pool
 example : (run P ex_N₂ [.block B3]).orphans = [3] ∧ (run P ex_N₂ ex_es₂).head = 3 ∧
     (run P ex_N₂ ex_es₂).orphans = [] := by decide
+
+-- `order_independent` (through the orphan pool): child-first against parent-first with a duplicate
+example : (run P ex_N₂ ex_es₂).head = 3 ∧
+    (run P ex_N₂ [.block B1, .block B2, .block B3, .block B3]).head = 3 ∧
+    (run P ex_N₂ ex_es₂).reportedUtxo P =
+      (run P ex_N₂ [.block B1, .block B2, .block B3, .block B3]).reportedUtxo P :=
+  (order_independent P ex_N₂ ex_es₂ [.block B1, .block B2, .block B3, .block B3] ex_headersOnly ex_reg₂
+    (by
+      intro e he
+      simp only [List.mem_cons, List.not_mem_nil, or_false] at he
+      rcases he with rfl | rfl | rfl | rfl <;> rfl)
+    (by decide) (by
+      intro id
+      simp only [ex_es₂, blockIds, B1, B2, B3, List.mem_cons, List.not_mem_nil, or_false]
+      omega)).2 3 ex_reach3
+    (by
+      intro id hr hne
+      cases hr with
+      | genesis => decide
+      | child b par _ _ hd =>
+        simp only [ex_es₂, blockIds, B1, B2, B3, List.mem_cons, List.not_mem_nil, or_false] at hd
+        rcases hd with h | h | h <;> rw [h] at hne ⊢
+        · exact absurd rfl hne
+        · decide
+        · decide)
 
 end Examples
 end GV.Props.C03
